@@ -48,7 +48,7 @@ PROPOSED_KNOWN = [
 def own_coq_build():
     """Until integrated in _CoqProject: compile our own .v files if stale."""
     th = os.path.join(common.COQDIR, "theories")
-    order = ["Solvers/CG.v", "Solvers/CGLS.v", "Solvers/CGLSFacts.v", "Corr/CheckC09.v"]
+    order = ["Solvers/CG.v", "Solvers/CGLS.v", "Solvers/CGLSFacts.v", "Solvers/CGLSMono.v", "Corr/CheckC09.v"]
     proj = open(os.path.join(common.COQDIR, "_CoqProject")).read()
     prev = max(os.path.getmtime(os.path.join(th, f)) for f in ("Base/Mat.vo", "Inst/GaussField.vo", "Corr/Check.vo"))
     for rel in order:
@@ -256,7 +256,9 @@ def lsqr_checks(A, y, x0, damp, niter):
         if damp == 0 and abs(cost[k] - np.linalg.norm(y - A @ its[k - 1])) > 1e-6 * scale:
             bad.append(("cost", "cost[%d]=%.12g but ||y-Op x_%d||=%.12g" % (k, cost[k], k, np.linalg.norm(y - A @ its[k - 1]))))
             break
-    if last is not None and last[2] == itn and not bad:
+    # beyond min(m, n) steps the bidiagonalisation has broken down (beta ~ 0 in exact arithmetic) and the norm
+    # ESTIMATES of both implementations are amplified rounding noise: they are compared up to that point only
+    if last is not None and last[2] == itn and not bad and itn <= min(A.shape):
         for name, a, b, sc in (("r1norm", r1, last[3], scale), ("r2norm", r2, last[4], scale), ("anorm", anorm, last[5], 1 + last[5]),
                                ("acond", acond, last[6], 1 + last[6]), ("arnorm", arnorm, last[7], (1 + last[5]) * scale),
                                ("xnorm", xnorm, last[8], 1 + last[8])):
